@@ -1,15 +1,15 @@
 \* Quick exhaustive configuration (`mix`): memtables + one table + one pending write, all shapes of bounds.
-\* The Bug* constants are TRUE = the code at the pinned commit; checks/c09.py overrides them from a probe of
-\* the code under test and derives the other stages (overlay, layers, late, sim) by substitution.
+\* The Bug* constants: FALSE = the repaired code (fix: commits 903f243 2110a3e 70f768e a440a8a), TRUE = the pinned
+\* commit.  checks/c09.py sets them from a probe of the code under test, runs the pinned variant as a teeth stage, and derives the other stages (overlay, layers, late, sim) by substitution.
 CONSTANTS
     NKeys = 4
     DataKeys = {1, 2, 3}
     Kinds = {"Set", "Del"}
     WsKinds = {"Set", "Del"}
-    BugNoneBound = TRUE
-    BugInverted = TRUE
-    BugSwitch = TRUE
-    BugMemLast = TRUE
+    BugNoneBound = FALSE
+    BugInverted = FALSE
+    BugSwitch = FALSE
+    BugMemLast = FALSE
     MaxCommits = 2
     MaxLate = 0
     MaxWs = 1
